@@ -16,17 +16,26 @@ TRUSTED = [
 
 def run(ctx):
     ctx.trusted = TRUSTED
-    ok, detail = core.coq_build(ctx, ["theories/Props/C01.vo", "theories/Queue/Corr.vo"])
+    ok, detail = core.coq_build(ctx, ["theories/Props/C01.vo", "theories/Queue/Corr.vo", "theories/Queue/IntegCorr.vo"])
     ctx.oblige("coq build of Props/C01.vo and its dependencies", ok, detail)
     core.audit(ctx)
     if not ok:
         return
     core.check_theorems(ctx, "theories/Props/C01.v", "Props.C01")
-    ov = core.write_overlay(ctx, {"internal/target/queue/zz_verif_c01_test.go": "harness/c01/c01_test.go"},
-                            {"internal/target/queue": "queue"})
+    ov = core.write_overlay(ctx, {"internal/target/queue/zz_verif_c01_test.go": "harness/c01/c01_test.go",
+                                  "internal/target/queue/zz_verif_export.go": "harness/queue/export.go",
+                                  "internal/target/remote/zz_verif_c01i_test.go": "harness/c01/c01_integ_test.go"},
+                            {"internal/target/queue": "queue", "internal/target/remote": "remote"})
     n = 400 if ctx.tier == "quick" else 12000
     core.generic_corr(ctx, overlay=ov, pkg="internal/target/queue", run="TestVerif_C01", n=n,
                       corr_module="Queue.Corr", clause_names=CLAUSES, name="queue", shard=600)
+    I_CLAUSES = {1: "integration: a recipient does not end in exactly one terminal outcome (next hop accepted it exactly once, or exactly one report names it)",
+                 2: "integration: a recipient was offered to the next hop more often than max_tries",
+                 3: "integration: a recipient was offered again after the next hop accepted it or refused it permanently",
+                 4: "integration: the message is still queued after max_tries attempts"}
+    core.generic_corr(ctx, overlay=ov, pkg="internal/target/remote", run="TestVerif_C01Integ",
+                      n=(60 if ctx.tier == "quick" else 1500),
+                      corr_module="Queue.IntegCorr", clause_names=I_CLAUSES, name="integration")
     ctx.coverage["rule"] = ("exhaustive single-recipient sweep (stage x failure class x atomic/per-recipient x max_tries 1-3) plus generated "
                             "messages with 1-5 recipients (ASCII, IDN, non-ASCII local part, case variant, duplicates), max_tries 1-3, "
                             "with/without bounce pipeline, null sender, one fault plan per attempt (start/rcpt/body/status/commit x temp/perm/"
